@@ -1,4 +1,5 @@
 import Exetera.Lemmas.FilterIndexSortFrame
+import Exetera.Lemmas.SortKeysFrame
 /-!
 # C09 — filter, re-index and sort keep rows intact and leave the source untouched
 
@@ -360,5 +361,101 @@ theorem sort_preserves_rows {α} (xs : List α) (keys : List (List Int)) :
 
 example : ∃ r, gather [10, 20, 30] (([2, 0, 1] : List Nat).map (fun (k : Nat) => (k : Int))) = some r ∧ r.Perm [10, 20, 30] :=
   permutation_preserves_rows [10, 20, 30] [2, 0, 1] (by decide)
+
+/-! ## sorting by ANY mix of key columns (numeric / categorical / timestamp / fixed string hold numbers; indexed strings)
+
+  The code sorts an indexed-string key as `np.asarray(list_of_str)` with `np.argsort(kind='stable')`: a `<U` array, compared
+  code point by code point. ASSUMPTIONS (runtime behaviour, exercised by the correspondence, not proved): numpy compares `<U`
+  entries by code point and its stable argsort is stable; for valid UTF-8 the code-point order is the bytewise order of the
+  encodings (`strLt`). One thing numpy does NOT do is keep trailing NUL characters: a `<U` array is NUL padded and `'a\x00'`
+  compares equal to `'a'` (NC09g, same root as NC14a) — the model mirrors that (`trimNul` in `keyColumns`), the full-strength
+  theorem below is therefore stated for the key columns as numpy sees them (`KeyCol.numpyView`), and the statement for the
+  bytewise order of the stored strings carries the hypothesis that no string key ends in NUL (`…_partial`). The model
+  replaces a string column by its rank column (`rankKeys`); `rank_is_order_embedding` is why that is faithful. -/
+
+/-- Rank encoding of a string column is an order embedding: for entries `e1`, `e2` of the column, the ranks (number of
+    strictly smaller entries) compare exactly as the strings do bytewise — smaller string ⇔ smaller rank, equal string ⇔ equal
+    rank — and `rankKeys` is the column of these ranks. -/
+theorem rank_is_order_embedding (es : List (List Nat)) :
+    rankKeys es = es.map (fun e => (rankOf es e : Int)) ∧
+    ∀ e1 ∈ es, ∀ e2 ∈ es, (rankOf es e1 < rankOf es e2 ↔ strLt e1 e2 = true) ∧ (rankOf es e1 = rankOf es e2 ↔ e1 = e2) :=
+  ⟨rankKeys_eq es, fun e1 h1 e2 h2 => rankOf_lt_iff es e1 e2 h1 h2⟩
+
+example : rankKeys [[98], [97], [98], [97, 0], []] = [3, 1, 3, 2, 0] := by decide
+
+/-- On rows of a frame, comparing the integer tuples the model sorts (numbers as they are, strings by rank) is comparing the
+    key tuples themselves (numbers as integers, strings bytewise), whatever the mix of column kinds. -/
+theorem encoded_keys_compare_as_keys (n : Nat) (keys : List KeyCol) (hk : ∀ k ∈ keys, k.length = n) (a b : Nat)
+    (ha : a < n) (hb : b < n) :
+    lexLE (keyRow (keys.map encCol) a) (keyRow (keys.map encCol) b) = lexLEK (keyRowK keys a) (keyRowK keys b) :=
+  lexLE_enc n keys hk a b ha hb
+
+/-- `df.sort_values(by, ddf)` on a rectangular frame of `n` rows, `by` naming ANY mix of numeric, fixed-string (numbers) and
+    indexed-string key columns, IS `df.apply_index(p, ddf)` for the one list `p` that holds every row once, in non-decreasing
+    lexicographic order of the key tuples (as numpy sees them), rows with equal tuples in their original order — so
+    `frame_index_inplace` / `frame_index_into` apply with that index: rows stay aligned, every column is permuted alike. -/
+theorem frame_sort_is_index_all_keys (v : Variant) (st : Store) (src : String) (sf : Frame) (cols : List (ColSpec Meta))
+    (hs : st.lookup src = some sf) (hh : Holds sf cols) (n : Nat) (hrect : ∀ c ∈ cols, c.content.length = n)
+    (by_ : List String) (hne : by_ ≠ []) (keys : List KeyCol) (hk : keyColsAll cols by_ = some keys)
+    (ddf : Option String) :
+    ∃ p, dfSortValues v st src by_ ddf = dfApplyIndex v st src (p.map (fun (k : Nat) => (k : Int))) ddf ∧
+      IsStableSortPermK (keys.map KeyCol.numpyView) n p ∧
+      ∀ q, IsStableSortPermK (keys.map KeyCol.numpyView) n q → q = p :=
+  dfSortValues_eq_all v st src sf cols hs hh n hrect by_ hne keys hk ddf
+
+/-- The same for the bytewise order of the strings as stored, under the hypothesis that no string key ends in a NUL
+    character. (Full statement — without `hnul` — is false for the code as found: `Witness.C09.nc09g_trailing_nul_key_ties`;
+    open finding NC09g.) -/
+theorem frame_sort_is_index_all_keys_partial (v : Variant) (st : Store) (src : String) (sf : Frame) (cols : List (ColSpec Meta))
+    (hs : st.lookup src = some sf) (hh : Holds sf cols) (n : Nat) (hrect : ∀ c ∈ cols, c.content.length = n)
+    (by_ : List String) (hne : by_ ≠ []) (keys : List KeyCol) (hk : keyColsAll cols by_ = some keys)
+    (hnul : ∀ k ∈ keys, k.NoTrailingNul) (ddf : Option String) :
+    ∃ p, dfSortValues v st src by_ ddf = dfApplyIndex v st src (p.map (fun (k : Nat) => (k : Int))) ddf ∧
+      IsStableSortPermK keys n p ∧ ∀ q, IsStableSortPermK keys n q → q = p := by
+  have h := frame_sort_is_index_all_keys v st src sf cols hs hh n hrect by_ hne keys hk ddf
+  rw [numpyView_of_noTrailingNul keys hnul] at h
+  exact h
+
+/-- a frame sorted by its indexed-string column, then (ties) by its numeric column -/
+example : ∃ p, dfSortValues .repaired [("src", exFrame)] "src" ["s", "n"] none =
+      dfApplyIndex .repaired [("src", exFrame)] "src" (p.map (fun (k : Nat) => (k : Int))) none ∧
+    IsStableSortPermK [.strs [[97], [], [99, 99]], .nums [5, 6, 7]] 3 p ∧
+    ∀ q, IsStableSortPermK [.strs [[97], [], [99, 99]], .nums [5, 6, 7]] 3 q → q = p :=
+  frame_sort_is_index_all_keys_partial .repaired _ "src" exFrame exCols rfl exHolds 3
+    (by intro c hc; simp only [exCols, List.mem_cons, List.not_mem_nil, or_false] at hc; rcases hc with rfl | rfl <;> rfl)
+    ["s", "n"] (by simp) _ rfl
+    (by intro k hk; simp only [List.mem_cons, List.not_mem_nil, or_false] at hk
+        rcases hk with rfl | rfl
+        · intro e he; simp only [List.mem_cons, List.not_mem_nil, or_false] at he
+          rcases he with rfl | rfl | rfl <;> decide
+        · trivial) none
+
+/-- three kinds mixed — a string key with ties, a numeric key, a fixed-string key (its big-endian number): the stable sort
+    permutation is `[1, 3, 2, 0]` -/
+example : IsStableSortPermK [.strs [[98], [97], [98], [97]], .nums [2, 1, 1, 1], .nums [24930, 25186, 24930, 25186]] 4 [1, 3, 2, 0] :=
+  ⟨by decide, by decide⟩
+
+/-- Stability: of two rows with EQUAL key tuples (whatever the mix of kinds) the one that was first in the frame is first
+    after the sort. -/
+theorem sort_all_keys_stable (keys : List KeyCol) (n : Nat) (p : List Nat) (hp : IsStableSortPermK keys n p)
+    (i j : Nat) (hij : i < j) (hj : j < n) (heq : keyRowK keys i = keyRowK keys j) : [i, j].Sublist p :=
+  stableK_keeps_ties keys n p hp i j hij hj heq
+
+example : [1, 3].Sublist [1, 3, 2, 0] :=
+  sort_all_keys_stable [.strs [[98], [97], [98], [97]], .nums [2, 1, 1, 1]] 4 [1, 3, 2, 0] ⟨by decide, by decide⟩ 1 3
+    (by omega) (by omega) rfl
+
+/-- `Session.dataset_sort_index` — the function `sort_values` and `Session.sort_on` both call — on key columns of any mix of
+    kinds (as the arrays numpy sorts) returns THE stable sort permutation of the key tuples, started from `arange(n)` or from
+    no index. -/
+theorem sort_index_eq_all_keys (keys : List KeyCol) (n : Nat) (hne : keys ≠ []) (hk : ∀ k ∈ keys, k.length = n) :
+    ∃ p, datasetSortIndex (keys.map encCol) none = .ok p ∧ datasetSortIndex (keys.map encCol) (some (List.range n)) = .ok p ∧
+      IsStableSortPermK keys n p ∧ ∀ q, IsStableSortPermK keys n q → q = p :=
+  datasetSortIndex_all keys n hne hk
+
+example : ∃ p, datasetSortIndex ([KeyCol.strs [[98], [97], [98]], .nums [2, 1, 1]].map encCol) none = .ok p ∧ p = [1, 2, 0] := by
+  obtain ⟨p, h1, _, _, hu⟩ := sort_index_eq_all_keys [KeyCol.strs [[98], [97], [98]], .nums [2, 1, 1]] 3 (by simp)
+    (by intro k hk; simp only [List.mem_cons, List.not_mem_nil, or_false] at hk; rcases hk with rfl | rfl <;> rfl)
+  exact ⟨p, h1, (hu [1, 2, 0] ⟨by decide, by decide⟩).symm⟩
 
 end Exetera.Props.C09
